@@ -17,8 +17,9 @@ hub-level outcome (`view`):
   BroadcastChannel.send(msg)              `socket.send(msg)` for every remote in turn (first ConnectionError aborts)
   BroadcastChannel.recv(block=True)       poll `socket.recv(block=False)` over the remotes, from the first one again
                                           after each round, until one returns; result (remote name, msg)
-  BroadcastChannel.recv(block=False)      `while block:` is skipped: raises RuntimeError("No message broadcasted")
-                                          WITHOUT looking at any socket (modelled as it is: no hub operation)
+  BroadcastChannel.recv(block=False)      ONE round of `socket.recv(block=False)` over the remotes in list order;
+                                          RuntimeError("No message broadcasted") only if none had a message
+                                          (the code after the fix of F48; before it the loop was skipped)
 
 Local state of the socket object: `_use_callbacks` is read by the hub at connect time only (the `cb` flag of
 `connect`); `_received_messages` is never read or written after `__init__`; timeouts are not modelled
@@ -70,7 +71,7 @@ def compile : SOp → List Op
   | .disconnect rn id => [.disconnect rn id]
   | .bsend r rs id w => [.send r id w rs]
   | .brecv r rs id true => [.recv r id (.poll (r :: rs) rs) 0]
-  | .brecv _ _ _ false => []                           -- raises without touching the hub
+  | .brecv r rs id false => [.recv r id (.pollOnce rs) 0]   -- one round of non-blocking receives
 
 def compileProg (p : List SOp) : List Op := p.flatMap compile
 
